@@ -362,6 +362,9 @@ def oversized(v, n, path='$'):
 # ---------------------------------------------------------------------------------------
 # workloads
 
+ELEM_KINDS = (('chars', lambda k: chr(97 + k % 26)), ('pairs', lambda k: (k, k)), ('nulls', lambda k: None),
+              ('dicts', lambda k: {'a': k}))
+
 SOURCE_TCLASSES_SKIP = ('lambda', 'mappingrule', 'rulevalue', 'keyword', 'strconst', 'expr', 'hidden')
 
 
@@ -474,6 +477,13 @@ def _positions(spec, mon, rec):
                   for k, a in vars_.items()}
             mon.limit_case(text, v2, n, where)
             if not lambda_mode:
+                # sources of other element kinds (a validator or converter that scans "while the elements look right"
+                # stops at the first number, not at the first one-character string or pair)
+                for kind, elem in ELEM_KINDS:
+                    v4 = {k: (hooks.CountingSource(None, name='$src', elem=elem) if isinstance(a.value, hooks.CountingSource) else a)
+                          for k, a in vars_.items()}
+                    mon.limit_case(text, v4, n, where + ':elements=' + kind)
+                    rec.count('src.element_kind_cases')
                 # the same position fed by a re-iterable host object (an __iter__-only collection without a length)
                 v3 = {k: (hooks.ReiterableSource(None, name='$src') if isinstance(a.value, hooks.CountingSource) else a)
                       for k, a in vars_.items()}
